@@ -50,8 +50,12 @@ class BoomBare(Exception):
     """Raised without any argument (a bare ``raise NotImplementedError`` / ``assert``): ``args == ()``."""
 
 
-BOOMS = dict(exception=Boom, base=BoomBase, attr=BoomAttr, type=BoomType, key=BoomKey, stop=BoomStop, bare=lambda site: BoomBare())
-ALL_BOOMS = (Boom, BoomBase, BoomAttr, BoomType, BoomKey, BoomStop, BoomBare)
+class BoomKbd(KeyboardInterrupt):
+    """Ctrl-C arriving inside a callback: an exception like any other for the statement."""
+
+
+BOOMS = dict(exception=Boom, base=BoomBase, attr=BoomAttr, type=BoomType, key=BoomKey, stop=BoomStop, bare=lambda site: BoomBare(), kbd=BoomKbd)
+ALL_BOOMS = (Boom, BoomBase, BoomAttr, BoomType, BoomKey, BoomStop, BoomBare, BoomKbd)
 
 
 class Shared:
@@ -547,6 +551,11 @@ def build_robot(layout, H, opts):
             c2: CompSM
             c3: CompC
         comps = ["c1", "c2", "c3"]
+    elif layout == "R0":
+        # a robot program without any component (only the robot's own hooks and feedbacks)
+        class Robot(RobotBase0):
+            pass
+        comps = []
     elif layout == "R6":
         # components without (some of) the optional hooks declared before the ones that have them
         class CompD:
